@@ -20,6 +20,10 @@ CAT = [
     ("ell", "poly", [[3, 3, 11, 3, 11, 7, 7, 7, 7, 11, 3, 11]]),
     ("twoSq", "poly", [[1, 1, 5, 1, 5, 5, 1, 5], [8, 8, 13, 8, 13, 13, 8, 13]]),
     ("open3", "open", [[2, 12, 8, 2, 13, 11]]),                  # open polyline: closed for filling
+    # two open contours, the second starting where the first stopped (each closes on its own start)
+    ("openPair", "open", [[1, 1, 9, 1, 9, 7], [9, 7, 9, 13, 1, 13]]),
+    # a closed contour followed by an open one that starts at the closed one's last drawn point
+    ("closedThenOpen", "mixed", [[2, 2, 8, 2, 8, 8], [8, 8, 14, 8, 14, 14]]),
     ("circle", "ellipse", [8, 8, 5, 5]),
     ("ellipse", "ellipse", [7, 6, 6, 3]),
     ("collinear", "poly", [[1, 1, 5, 5, 9, 9]]),
@@ -43,11 +47,11 @@ def cmds_of(entry):
         from picosvg.svg_types import SVGPath
         return tuple(SVGPath(d=data).as_cmd_seq())
     out = []
-    for c in data:
+    for k, c in enumerate(data):
         out.append(("M", (float(c[0]), float(c[1]))))
         for i in range(2, len(c), 2):
             out.append(("L", (float(c[i]), float(c[i + 1]))))
-        if kind != "open":
+        if kind == "poly" or (kind == "mixed" and k == 0):
             out.append(("Z", ()))
     return tuple(out)
 
